@@ -8,6 +8,7 @@ import Nq.Lemmas.SmtpSim
 import Nq.Lemmas.SmtpDecode
 import Nq.Lemmas.SmtpWire
 import Nq.Lemmas.SmtpIO
+import Nq.Lemmas.SmtpPrefix
 
 namespace Nq.Props.C06
 open Nq Nq.SmtpOut Nq.SmtpIn Nq.Wire Nq.Lemmas
@@ -93,6 +94,41 @@ theorem C06_partial_crfree (m : Bytes) (h : CR ∉ m) :
   have := key m .top h (by simp)
   simpa using this
 
+/-! ### What is on the wire when `blast()` does **not** complete (refused message, dropped connection,
+failing read): `rfull .top m` = everything handed to `substdio_put`, whatever the outcome -/
+
+/-- on an accepted message `rfull` is the transmission; on a refused one it is what was emitted before
+`perm_partialline()`, which is the transmission of `m ++ [LF]` minus its last five bytes -/
+theorem C06_rfull (m : Bytes) :
+    (∀ e, rblast m = some e → rfull .top m = e) ∧
+    (rblast m = none → rfull .top m = rpart .top m ∧
+        rblast (m ++ [LF]) = some (rpart .top m ++ [CR, LF, DOT, CR, LF])) :=
+  ⟨fun e h => rfull_of_some .top m e h, fun h => ⟨(rfull_of_none .top m h).1, rrun_complete .top m h⟩⟩
+
+/-- **C06_prefix_no_terminator.**  Let `p` be any prefix of what `blast()` emits on message `m` — in
+particular the bytes already flushed to the socket when the message is refused for ending inside a line,
+when a read of the queue file fails, or when the connection drops.  Then `p` contains no bare LF, and `p`
+shows the peer a lone-dot line (end of DATA) **only if** the message was accepted and `p` is its complete
+transmission.  So message content cannot end the DATA phase in the failure cases either. -/
+theorem C06_prefix_no_terminator (m p t : Bytes) (h : rfull .top m = p ++ t) :
+    noBareLF p = true ∧ ([DOT] ∈ (splitCRLF p).1 → rblast m = some p) :=
+  prefix_no_terminator m p t h
+
+/-! ### `canon` characterised without the state machine; the CR CR quirk -/
+
+/-- `canon` is the greedy two-byte tokenisation `canonSpec`: CR LF ↦ LF; CR x ↦ LF x with `x` **not
+examined again**; a final CR ↦ LF; any other byte itself. -/
+theorem C06_canon_spec (m : Bytes) : canon m = canonSpec m := canon_eq_canonSpec m
+
+/-- On messages without two adjacent CRs this is exactly the documented rule `canonDoc`
+("CR LF kept, every other CR becomes a line break, the next byte starts the new line"). -/
+theorem C06_canon_documented (m : Bytes) (h : noCRCR m = true) : canon m = canonDoc m := by
+  rw [canon_eq_canonSpec, canonSpec_eq_canonDoc m h]
+
+/-- The quirk: the byte after a bare CR is literal data even when it is itself a CR (it is written with
+`substdio_put(&smtpto,&ch,1)` without passing through the `ch == '\r'` test again). -/
+theorem C06_canon_crcr (m : Bytes) : canon (CR :: CR :: m) = LF :: CR :: canon m := canon_cr_cr m
+
 /-! ### Non-vacuity: concrete messages meeting the hypotheses (bytes written out:
 13 = CR, 10 = LF, 46 = '.', 97 = 'a', 81 85 73 84 = "QUIT") -/
 
@@ -104,6 +140,17 @@ example : canon [97, 13, 46, 10, 81, 85, 73, 84, 10] = [97, 10, 46, 10, 81, 85, 
 example : rblast [46, 10, 46, 46, 10, 97, 13, 10]
     = some [46, 46, 13, 10, 46, 46, 46, 13, 10, 97, 13, 10, 46, 13, 10] := by decide
 example : rblast [97, 97] = none := by decide
+
+/-- CR CR LF: the documented rule gives two line ends, the code gives a line end, a literal CR, a line end -/
+example : canon [13, 13, 10] = [10, 13, 10] ∧ canonDoc [13, 13, 10] = [10, 10] ∧
+    rblast [13, 13, 10] = some [13, 10, 13, 13, 10, 46, 13, 10] := by decide
+/-- CR CR . LF is sent as CR LF CR . CR LF . CR LF: a conforming receiver stores LF CR . LF (`C06_decode`); a
+receiver that also breaks lines at a bare CR would see a lone dot.  Observation, see notes/C06.md. -/
+example : rblast [13, 13, 46, 10] = some [13, 10, 13, 46, 13, 10, 46, 13, 10] ∧ canon [13, 13, 46, 10] = [10, 13, 46, 10] ∧
+    noCRCR [13, 13, 46, 10] = false := by decide
+/-- a refused message ("a LF b"): "a CR LF b" was handed to substdio_put; no lone dot, no bare LF in it -/
+example : rblast [97, 10, 98] = none ∧ rfull .top [97, 10, 98] = [97, 13, 10, 98] := by decide
+example : noCRCR [97, 13, 46, 10, 13, 10] = true := by decide
 
 /-! ### Chunking independence: `blast()` as it runs over substdio (`Nq.SmtpIO.oblast`)
 
@@ -120,18 +167,39 @@ open Nq.Substdio Nq.SmtpIO Nq.Lemmas.SmtpIO
 /-- **C06_chunking_anyscript.**  For every read script and every write script, failing calls included:
 if `blast()` returns, the bytes put on the wire after what was there before are exactly `rblast m` of the
 whole message and the output buffer is empty (flushed); `perm_partialline()` happens only when the pure
-encoder refuses the message; `temp_read()` only after a failing read; `dropped()` only after a failing
-write.  The substdio invariants (`0 ≤ p ≤ n`, every copy inside the buffer) are kept. -/
+encoder refuses the message, and everything emitted before (`rpart`) has then been written or is still in
+the buffer; `temp_read()` only after a failing read; `dropped()` only after a failing write.  The substdio
+invariants (`0 ≤ p ≤ n`, every copy inside the buffer) are kept. -/
 theorem C06_chunking_anyscript (i : ISt) (o : OSt) (hi : IWF i) (ho : OWF o) (hc : cpIn o) :
     match oblast i o with
     | .sent o' => ∃ e, rblast (i.data ++ i.src) = some e ∧ o'.out = o.out ++ o.buf ++ e ∧ o'.buf = [] ∧
                     OWF o' ∧ cpIn o' ∧ o'.n = o.n
-    | .partialLine _ => rblast (i.data ++ i.src) = none
+    | .partialLine o' => rblast (i.data ++ i.src) = none ∧ o'.out ++ o'.buf = o.out ++ o.buf ++ rpart .top (i.data ++ i.src)
     | .tempRead _ => 0 ∈ i.rs
     | .dropped _ => 0 ∈ o.ws := by
-  have := oblast_spec i o hi ho hc
+  have := (oblast_spec i o hi ho hc).2
   generalize oblast i o = R at this
   cases R <;> exact this
+
+/-- **C06_chunking_prefix.**  Whatever the outcome and whatever the scripts, what has been written to the
+socket followed by what is still in `smtptobuf` is a prefix of (what was pending before, then) `rfull .top m`:
+nothing is ever written that the pure encoder would not emit, in that order. -/
+theorem C06_chunking_prefix (i : ISt) (o : OSt) (hi : IWF i) (ho : OWF o) (hc : cpIn o) :
+    ∃ t, (oblast i o).ost.out ++ (oblast i o).ost.buf ++ t = o.out ++ o.buf ++ rfull .top (i.data ++ i.src) :=
+  (oblast_spec i o hi ho hc).1
+
+/-- **C06_chunking_no_early_end.**  On a connection with nothing pending, for **every** outcome of `blast()`
+(returned, message refused, read failed, connection dropped) and every split of reads and writes: the bytes
+the socket has taken contain no bare LF, and they show a lone-dot line only if `blast()`'s complete
+transmission of an accepted message is on the wire. -/
+theorem C06_chunking_no_early_end (i : ISt) (o : OSt) (hi : IWF i) (ho : OWF o) (hc : cpIn o)
+    (hfresh : o.out = [] ∧ o.buf = []) :
+    noBareLF (oblast i o).ost.out = true ∧
+    ([DOT] ∈ (splitCRLF (oblast i o).ost.out).1 → rblast (i.data ++ i.src) = some (oblast i o).ost.out) := by
+  obtain ⟨t, ht⟩ := C06_chunking_prefix i o hi ho hc
+  rw [hfresh.1, hfresh.2] at ht
+  simp only [List.nil_append, List.append_assoc] at ht
+  exact C06_prefix_no_terminator _ _ _ ht.symm
 
 /-- **C06_chunking.**  With reads and writes that do not fail — but are split in any way whatsoever —
 `blast()` returns and the wire carries exactly `rblast m`, or the message ends inside a line and is refused:
@@ -150,7 +218,7 @@ theorem C06_chunking (i : ISt) (o : OSt) (hi : IWF i) (ho : OWF o) (hc : cpIn o)
     · rw [h1] at hn; cases hn
   | partialLine o' =>
     simp only at this
-    exact ⟨fun e he => (by rw [this] at he; cases he), fun _ => ⟨o', rfl⟩⟩
+    exact ⟨fun e he => (by rw [this.1] at he; cases he), fun _ => ⟨o', rfl⟩⟩
   | tempRead o' => exact absurd this hr
   | dropped o' => exact absurd this hw
 
